@@ -4,6 +4,7 @@
 -/
 import Driver.Codec
 import Mux.Model.Call
+import Mux.Spec.Resolve
 namespace Driver
 open Mux
 
@@ -253,6 +254,12 @@ def step (st : St) (line : String) : St × String :=
     withRouter st rid (fun id r => ({ st with routers := st.routers.set id (r.use (decNatList mws)) }, "ok"))
   | ["routes", rid] =>
     withRouter st rid (fun _ r => (st, fmtRoutes r.routes))
+  | ["spec-adm", rid, path] =>
+    -- the reference resolver of the theorem `C02_resolve` (Mux/Spec/Resolve.lean) on the live routes: every admissible outcome
+    withRouter st rid (fun _ r =>
+      let rs := (r.routes.map (·.1)).filter (· ≠ [42])
+      let outs := Mux.Spec.resolveAll env r.tree.ic rs (decB path)
+      (st, "adm " ++ (if outs = [] then "%-" else "|".intercalate (sortStr (outs.map (fun o => encB o.1 ++ "{" ++ encM o.2 ++ "}"))))))
   | ["serve", rid, method, path, host, hdrs, accept] =>
     withRouter st rid (fun _ r =>
       (st, fmtServe (r.serveHTTP env st.pc st.scripts (mkReq method path host hdrs accept) [])))
